@@ -248,6 +248,9 @@ def generate(seed, run, tier):
     if crng.random() < 0.02 and events:
         pos = srng.randrange(len(events) + 1)
         events.insert(pos, {"op": "flood", "n": crng.choice([4200, 8300]), "c": "R9"})
+    if crng.random() < 0.06 and events:
+        pos = srng.randrange(len(events) + 1)
+        events.insert(pos, {"op": "foreign_prune", "c": "X"})
     return {"config": config, "events": events}
 
 
@@ -697,6 +700,18 @@ class Run(object):
             stats.event("%s|%s|%s" % (ev.get("c"), op, r(ev["url"])))
             if op == "other_set":
                 self.sweep("other_set")
+        elif op == "foreign_prune":
+            # elsewhere in the process a plain TrieDict with stem-like tokens is
+            # filled and pruned: the LRU trie's own TrieDict shares nothing with it
+            from ural.classes import TrieDict
+
+            other = TrieDict()
+            other[["s:http", "h:fr"]] = "foreign-1"
+            other[["s:http", "h:fr", "h:lemonde"]] = "foreign-2"
+            other[["s:http", "h:fr", "h:lemonde", "p:a"]] = "foreign-3"
+            other.set_and_prune_if_shorter(["s:http"], "foreign-4")
+            stats.probe("foreign_instance_pruned")
+            stats.event("X|foreign_prune")
         elif op == "flood":
             # thousands of distinct URLs (more than a bounded cache holds)
             n = min(int(ev.get("n", 0)), 20000)
